@@ -287,27 +287,28 @@ def _skeleton_ok(root) -> bool:
     return len(prim) == 1 and prim[0].hasAttribute("id")
 
 
-def c01_skeleton(feat: int, t0: int, t1: int, n0: int, n1: int) -> bool:
+def c01_skeleton(feat: int, t0: int, n0: int, n1: int) -> bool:
     """
-    vpre: 33 <= t0 <= 126 and t0 != 36 and 33 <= t1 <= 126 and t1 != 36
+    vpre: 33 <= t0 <= 126 and t0 != 36
     vpre: 97 <= n0 <= 122 and 97 <= n1 <= 122
     vpost: _ == True
     """
-    T, N = S(t0, t1), S(n0, n1)
+    # fixed names carry a digit so that they cannot collide with the symbolic (letters-only) name
+    T, N = S(t0, 66), S(n0, n1)
     rows = [{"type": "text", "name": N, "label": T}]
     wb = {"survey": rows, "settings": [{"form_title": T, "form_id": "f" + N}]}
     if feat == 1:  # submission + itext + secondary instance
         wb["settings"][0]["submission_url"] = "http://x/" + N
         rows[0]["label::L1"] = T
-        rows.append({"type": "select_one l1", "name": "s", "label": "S"})
+        rows.append({"type": "select_one l1", "name": "s9", "label": "S"})
         wb["choices"] = [{"list_name": "l1", "name": "a", "label": T}]
     elif feat == 2:  # repeat + entity + custom namespace + external instance
-        rows[:] = [{"type": "begin repeat", "name": "r", "label": T}, rows[0], {"type": "end repeat"}, {"type": "xml-external", "name": "ext"}]
+        rows[:] = [{"type": "begin repeat", "name": "r9", "label": T}, rows[0], {"type": "end repeat"}, {"type": "xml-external", "name": "ext9"}]
         wb["entities"] = [{"dataset": "ds", "label": "a"}]
         wb["settings"][0]["namespaces"] = 'ex="http://e/' + N + '"'
         wb["settings"][0]["attribute::ex:k"] = T
     elif feat == 3:  # audit, trigger, dynamic default, range
-        rows += [{"type": "audit", "name": "audit"}, {"type": "calculate", "name": "c", "calculation": "1", "trigger": "${" + "q0}"}, {"type": "text", "name": "q0", "label": "Q", "default": "now()"}, {"type": "range", "name": "rg", "label": T, "parameters": "start=1 end=5 step=1"}]
+        rows += [{"type": "audit", "name": "audit"}, {"type": "calculate", "name": "c9", "calculation": "1", "trigger": "${" + "q09}"}, {"type": "text", "name": "q09", "label": "Q", "default": "now()"}, {"type": "range", "name": "rg9", "label": T, "parameters": "start=1 end=5 step=1"}]
         rows.insert(0, rows.pop(3))
     survey, _w, _js = build_survey(wb, form_name="d" + N)
     root = survey.xml()
@@ -327,7 +328,7 @@ specialise(
     timeout=400,
     kernel=("pyxform.survey:Survey.xml", "pyxform.survey:Survey.xml_model", "pyxform.survey:Survey.xml_instance", "pyxform.survey:Survey.get_nsmap", "pyxform.xls2json:workbook_to_json"),
     shims=("S1", "S2", "S3", "S4"),
-    symbolic="title/label text (2 symbolic characters) and a 2-letter name used for the question, form id and form name",
+    symbolic="title/label text (one symbolic printable character + a fixed one) and a 2-letter name used for the question, form id and form name",
     bounds="feature mix fixed per instance: plain; submission+itext+choices; repeat+entity+namespaces+external instance; audit+trigger+dynamic default+range",
     weight=60,
 )
@@ -400,6 +401,7 @@ specialise(
     bounds="channel fixed per instance; expected to reproduce known finding F2 (header text reaches XML name positions unvalidated)",
     weight=30,
     expect="known",
+    reach=False,
     classifier=_classify_channels,
 )
 
@@ -433,6 +435,7 @@ specialise(
     bounds="expected to reproduce known finding F17 (names with an undeclared namespace prefix are accepted)",
     weight=30,
     expect="known",
+    reach=False,
     classifier=lambda call, replay: "F17",
 )
 
@@ -464,6 +467,7 @@ specialise(
     bounds="expected to reproduce known finding F8 (characters outside XML 1.0 Char are written raw)",
     weight=20,
     expect="known",
+    reach=False,
     classifier=lambda call, replay: "F8",
 )
 
